@@ -429,7 +429,7 @@ func use(fm *Frame, spec string, r diag.Ranger) (*Ns, error) {
 	}
 
 	// Handle imports of pre-defined modules like `builtin` and `str`.
-	if ns, ok := fm.Evaler.modules[spec]; ok {
+	if ns, ok := fm.Evaler.getModule(spec); ok {
 		return ns, nil
 	}
 	if code, ok := fm.Evaler.BundledModules[spec]; ok {
@@ -453,9 +453,8 @@ func use(fm *Frame, spec string, r diag.Ranger) (*Ns, error) {
 	return nil, NoSuchModule{spec}
 }
 
-// TODO: Make access to fm.Evaler.modules concurrency-safe.
 func useFromFile(fm *Frame, spec, path string, r diag.Ranger) (*Ns, error) {
-	if ns, ok := fm.Evaler.modules[path]; ok {
+	if ns, ok := fm.Evaler.getModule(path); ok {
 		return ns, nil
 	}
 	_, err := os.Stat(path + ".so")
@@ -485,7 +484,7 @@ func useFromFile(fm *Frame, spec, path string, r diag.Ranger) (*Ns, error) {
 		t := reflect.TypeOf(sym).Elem()
 		return nil, PluginLoadError{spec, fmt.Errorf("Ns symbol has wrong type %s", t)}
 	}
-	fm.Evaler.modules[path] = *ns
+	fm.Evaler.AddModule(path, *ns)
 	return *ns, nil
 }
 
@@ -500,7 +499,11 @@ func readFileUTF8(fname string) (string, error) {
 	return string(bytes), nil
 }
 
-// TODO: Make access to fm.Evaler.modules concurrency-safe.
+// Access to fm.Evaler.modules is guarded by the Evaler's mutex, which is never
+// held while the module's code is executing (the code may itself use modules).
+//
+// TODO: Two concurrent first imports of the same module both evaluate it, and
+// an importer can observe a module that another goroutine is still evaluating.
 func evalModule(fm *Frame, key string, src parse.Source, r diag.Ranger) (*Ns, error) {
 	ns, exec, err := fm.PrepareEval(src, r, new(Ns))
 	if err != nil {
@@ -509,11 +512,11 @@ func evalModule(fm *Frame, key string, src parse.Source, r diag.Ranger) (*Ns, er
 	verifhook.At("eval.evalModule.beforeInstall")
 	// Installs the namespace before executing. This prevent circular use'es
 	// from resulting in an infinite recursion.
-	fm.Evaler.modules[key] = ns
+	fm.Evaler.AddModule(key, ns)
 	err = exec()
 	if err != nil {
 		// Unload the namespace.
-		delete(fm.Evaler.modules, key)
+		fm.Evaler.deleteModule(key, ns)
 		return nil, err
 	}
 	return ns, nil
